@@ -177,3 +177,11 @@ func (r *vFailReader) Read(p []byte) (int, error) {
 	r.pos += n
 	return n, nil
 }
+
+// vBlockUntil waits until cond holds; in the engine other modelled goroutines run meanwhile (natively the models that
+// use it are not linked in: the real sync/io primitives block by themselves).
+func vBlockUntil(cond func() bool) {
+	for !cond() {
+	}
+}
+func vYield() {}
